@@ -12,6 +12,7 @@
    Component (ServerSet + the recipe instances it created)
      dver                      DataWatch._version (None = path seen absent)
      watching, nodes, members, queue   the fields of the same names
+     queue                     _notification_queue: change batches and all-members-left items (None)
      wk                        the notification worker: None = blocked in queue.get(), Some w = inside
                                _zk_nodes_to_members, blocked in zk.get of member w_cur
    Consumer
@@ -46,7 +47,9 @@ Record state := St {
   parent : bool; pz : Z; zx : Z; kids : list name;
   dw : bool; cw : nat; pending : list pend;
   dver : option Z; watching : bool;
-  nodes : list name; members : list name; queue : list batch; wk : option worker;
+  nodes : list name; members : list name;
+  queue : list (option batch);   (* None = the all-members-left item put by _send_all_removed *)
+  wk : option worker;
   armed : nat; log : list event }.
 
 Definition init (f : list name) : state :=
@@ -93,13 +96,12 @@ Definition fire_children (s : state) : state :=
 (* ServerSet._on_set_changed *)
 Definition on_set_changed (children : list name) (s : state) : state :=
   let ch := filter (flt s) children in
-  set_queue (queue s ++ [(diff ch (nodes s), diff (nodes s) ch)]) (set_nodes ch s).
+  set_queue (queue s ++ [Some (diff ch (nodes s), diff (nodes s) ch)]) (set_nodes ch s).
 
-(* ServerSet._send_all_removed: runs in the caller (the data-watch callback), not in the worker *)
-Fixpoint leave_all (ms : list name) (s : state) : state :=
-  match ms with [] => s | m :: r => leave_all r (call_cb Leave m s) end.
+(* ServerSet._send_all_removed (called from the data-watch callback): forgets the known nodes at
+   once and hands the notification to the worker, behind the batches already queued *)
 Definition send_all_removed (s : state) : state :=
-  leave_all (members s) (set_members [] (set_nodes [] s)).
+  set_queue (queue s ++ [None]) (set_nodes [] s).
 
 (* ServerSet._begin_watch: ChildrenWatch(...) registers its watcher and calls the function at once *)
 Definition begin_watch (s : state) : state := on_set_changed (kids s) (set_cw (S (cw s)) s).
@@ -148,12 +150,15 @@ Definition continue_batch (hint : option name) (todo done rem : list name) (s : 
   | None => apply_batch done rem (set_wk None s)
   end.
 
-(* takes batches from the queue until one needs a read (queue.get() does not yield when an item is there) *)
-Fixpoint drain_q (hint : option name) (q : list batch) (s : state) : state :=
+(* takes items from the queue until one needs a read (queue.get() does not yield when an item is
+   there); the all-members-left item becomes ((), list(self._members.keys())) when it is taken *)
+Definition item_batch (s : state) (it : option batch) : batch :=
+  match it with Some b => b | None => ([], members s) end.
+Fixpoint drain_q (hint : option name) (q : list (option batch)) (s : state) : state :=
   match q with
   | [] => set_queue [] s
-  | (new, rem) :: q' =>
-      let s1 := continue_batch hint (filter (flt s) new) [] rem (set_queue q' s) in
+  | it :: q' =>
+      let s1 := continue_batch hint (filter (flt s) (fst (item_batch s it))) [] (snd (item_batch s it)) (set_queue q' s) in
       match wk s1 with Some _ => s1 | None => drain_q hint q' s1 end
   end.
 Definition drain (hint : option name) (s : state) : state := drain_q hint (queue s) s.
@@ -238,13 +243,17 @@ Definition kinds_of (n : name) (chron : list event) : list kind :=
   map ev_kind (filter (fun e => Z.eqb (ev_name e) n) chron).
 
 (* ---------------------------------------------------------------------------------------------- *)
-(* guards used by the _partial theorems (each excludes one schedule family on which the code fails) *)
+(* guards used by C19_converges_partial (each excludes one schedule family on which the code fails) *)
 
-(* the change batches the worker has not finished: the one in progress, then the queued ones *)
-Definition outstanding (s : state) : list batch :=
-  match wk s with Some w => [(w_cur w :: w_todo w ++ w_done w, w_rem w)] | None => [] end
-  ++ map (fun b => (filter (flt s) (fst b), snd b)) (queue s).
-Definition bstep (n : name) (b : bool) (bt : batch) : bool := (b || mem n (fst bt)) && negb (mem n (snd bt)).
+(* the work the worker has not finished: the batch in progress, then the queued items *)
+Definition outstanding (s : state) : list (option batch) :=
+  match wk s with Some w => [Some (w_cur w :: w_todo w ++ w_done w, w_rem w)] | None => [] end
+  ++ map (option_map (fun b => (filter (flt s) (fst b), snd b))) (queue s).
+Definition bstep (n : name) (b : bool) (it : option batch) : bool :=
+  match it with
+  | Some bt => (b || mem n (fst bt)) && negb (mem n (snd bt))
+  | None => false
+  end.
 (* will n be a member once the outstanding batches are applied (if its data can still be read)? *)
 Definition expects (s : state) (n : name) : bool := fold_left (bstep n) (outstanding s) (mem n (members s)).
 (* n is listed in _nodes but its read was skipped (it had vanished): nothing will announce it *)
@@ -252,21 +261,6 @@ Definition lost (s : state) (n : name) : bool := mem n (nodes s) && negb (expect
 
 Definition has_pdata (p : list pend) : bool := existsb (fun x => match x with PData => true | PChild => false end) p.
 
-(* G1 (fence): when the data watch reports the path deleted (so _send_all_removed runs in the
-   callback), no change batch is queued or in progress in the worker. *)
-Definition guard_fence (s : state) (l : label) : bool :=
-  match l with
-  | Deliver => match pending s with
-               | PData :: _ =>
-                   if parent s then true
-                   else match dver s with
-                        | None => true
-                        | Some _ => match queue s, wk s with [], None => true | _, _ => false end
-                        end
-               | _ => true
-               end
-  | _ => true
-  end.
 (* G2 (no unseen re-creation): a member whose read was skipped is not created again before a
    children notification has shown its absence. *)
 Definition guard_noflap (s : state) (l : label) : bool :=
@@ -283,7 +277,7 @@ Definition guard_path (s : state) (l : label) : bool :=
   | _ => true
   end.
 
-Definition guard_all (s : state) (l : label) : bool := guard_fence s l && guard_noflap s l && guard_path s l.
+Definition guard_all (s : state) (l : label) : bool := guard_noflap s l && guard_path s l.
 
 Fixpoint guarded (g : state -> label -> bool) (s : state) (ls : list label) : bool :=
   match ls with [] => true | l :: r => g s l && guarded g (step s l) r end.
